@@ -808,7 +808,8 @@ def fam_impl_for_spec(iv):
         if m:
             hs = m.group(2)
             if hs != "-":
-                names = sorted(set(bytes.fromhex(hs).decode("latin1").split(",")))
+                # (order is free; a name listed twice is not: C17 asks for the de-duplicated set)
+                names = sorted(bytes.fromhex(hs).decode("latin1").split(","))
                 hs = ",".join(names).encode("latin1").hex()
             e = "CORS(%s!%s)" % (m.group(1), hs)
         if e and e != "-":
